@@ -191,6 +191,27 @@ func Gen(r *rand.Rand, o GenOpts) []string {
 		_ = pv
 		policy = append(policy, SealRule{Epoch: epoch0 + uint32(k), Block: blk, Vals: pv})
 	}
+	// "cascade" family (C02 C08 C09): the DAG starts with a prefix whose last event decides two or more frames
+	// in ONE Process call, and the application seals on the second (or last) block of that call
+	var casDefs []*EvDef
+	var casSpf []uint32
+	if (o.Mix == "C08" || o.Mix == "C09" || o.Mix == "C02") && !jump && r.Intn(6) == 0 {
+		for try := 0; try < 4 && casDefs == nil; try++ {
+			cv, defs, spfs, before, last, ok := cascadePrefix(r, cfg, epoch0, 200)
+			if !ok {
+				continue
+			}
+			vals, casDefs, casSpf = cv, defs, spfs
+			blk := before + 2
+			if last >= 3 && r.Intn(2) == 0 {
+				blk = before + last
+			}
+			policy = []SealRule{{Epoch: epoch0, Block: blk, Vals: mutateVals(r, vals)}}
+			if r.Intn(2) == 0 {
+				policy = append(policy, SealRule{Epoch: epoch0 + 1, Block: 1 + r.Intn(2), Vals: mutateVals(r, policy[0].Vals)})
+			}
+		}
+	}
 	ref := NewInst(cfg, epoch0, vals, policy)
 	forkRate := 4
 	if o.Mix == "C03" {
@@ -263,6 +284,39 @@ func Gen(r *rand.Rand, o GenOpts) []string {
 		return es
 	}
 	es := newEpochState()
+	// replay the cascade prefix on the reference instance (frames are known); its last event seals
+	for k, d := range casDefs {
+		rr := &runner{defs: map[int]*EvDef{}, ids: map[int]hash.Event{}}
+		for _, p := range d.Parents {
+			rr.ids[p] = idOf(casDefs[p])
+		}
+		epochBefore := ref.Epoch()
+		pres, bl := ref.Process(rr.mk(d, d.Frame))
+		ge := &genEv{def: d, spf: casSpf[k], blocks: len(bl)}
+		evs = append(evs, ge)
+		script = append(script, item{ev: d.N})
+		if pres != "ok" {
+			break
+		}
+		es.own[d.Creator] = append(es.own[d.Creator], d.N)
+		es.all = append(es.all, d.N)
+		if ref.Epoch() != epochBefore {
+			ge.sealed = true
+			if firstSwitch < 0 {
+				firstSwitch = len(script)
+				var nv []VW
+				v := ref.Validators()
+				for i, id := range v.SortedIDs() {
+					nv = append(nv, VW{uint32(id), uint32(v.GetWeightByIdx(idx.Validator(i)))})
+				}
+				firstSwitchReset = append([]string{"RESET", fmt.Sprint(ref.Epoch())}, vwTok(nv)...)
+			}
+			es = newEpochState()
+		}
+	}
+	if casDefs != nil {
+		nEv = len(evs) + 15 + r.Intn(25)
+	}
 
 	for len(evs) < nEv {
 		// arbitrary RESET (generation-time, so that later events belong to the new epoch)
@@ -726,11 +780,18 @@ func Gen(r *rand.Rand, o GenOpts) []string {
 			}
 		}
 	}
-	if o.Mix == "C08" && r.Intn(4) == 0 {
+	if o.Mix == "C08" && (r.Intn(4) == 0 || casDefs != nil) {
 		// restart at EVERY boundary
 		main = nil
+		pcount := 0
 		for _, g := range alt {
 			main = append(main, g)
+			if g[0] == "P" {
+				pcount++
+			}
+			if casDefs != nil && pcount < len(casDefs)-8 {
+				continue // long cascade prefix: restarts start shortly before the chained decisions
+			}
 			if g[0] == "P" || g[0] == "X" || g[0] == "Y" || g[0] == "b" {
 				main = append(main, []string{"R"})
 			}
